@@ -192,21 +192,33 @@ Definition enc_nlri (p : profile) (n : nlri) : res (list N) :=
   | NRaw b => Ok b
   end.
 
-Definition enc_pnlri (p : profile) (addpath : bool) (e : pnlri) : res (list N) :=
-  b <- enc_nlri p (snd e) ;;
+(* Nlri::encode_withdraw: a labeled-unicast withdrawal carries the fixed 3-byte
+   compatibility label field 0x800000 (RFC 8277 2.4) instead of its label stack *)
+Definition enc_nlri_withdraw (p : profile) (n : nlri) : res (list N) :=
+  match n with
+  | NLab4 _ m a | NLab6 _ m a =>
+      bits <- add8 p 24 m ;;
+      o <- prefix_octets m a ;;
+      Ok (bits :: [128; 0; 0] ++ o)
+  | _ => enc_nlri p n
+  end.
+
+Definition enc_pnlri (p : profile) (addpath withdraw : bool) (e : pnlri) : res (list N) :=
+  b <- (if withdraw then enc_nlri_withdraw p (snd e) else enc_nlri p (snd e)) ;;
   Ok ((if addpath then be32 (fst e) else []) ++ b).
 
-(* The entry loop shared by the four places of do_encode / mp_*_encode:
-     for item in entries { if buf_head + max > dst.len() + reserve { put } else { break } }
-   [cur] is dst.len() - buf_head.  Returns the bytes written and the count. *)
-Fixpoint put_entries (p : profile) (limit reserve : N) (addpath : bool) (cur : N) (es : list pnlri)
+(* PeerCodec::put_entries: every entry is encoded into a scratch buffer and appended
+   while the wire message stays within [limit] bytes ([cur] = dst.len() - buf_head):
+     if dst.len() + scratch.len() > limit { break }
+   Returns the bytes written and the count. *)
+Fixpoint put_entries (p : profile) (limit : N) (addpath withdraw : bool) (cur : N) (es : list pnlri)
   : res (list N * nat) :=
   match es with
   | [] => Ok ([], 0%nat)
   | e :: t =>
-      if cur + reserve <? limit then
-        b <- enc_pnlri p addpath e ;;
-        r <- put_entries p limit reserve addpath (cur + len b) t ;;
+      b <- enc_pnlri p addpath withdraw e ;;
+      if cur + len b <=? limit then
+        r <- put_entries p limit addpath withdraw (cur + len b) t ;;
         Ok (b ++ fst r, S (snd r))
       else Ok ([], 0%nat)
   end.
@@ -304,24 +316,24 @@ Definition attrs_2byte (a : attr) : res (list attr) :=
     end
   else Ok [a].
 
-(* `attr_len += a.encode_wire(dst)` over a list of attributes: bytes and the u16 accumulator *)
-Fixpoint enc_attr_list (p : profile) (acc : N) (l : list attr) : res (list N * N) :=
+(* `attr_len += a.encode_wire(dst) as usize` over a list of attributes: bytes and the
+   usize accumulator (each addend is the u16 returned by Attribute::encode) *)
+Fixpoint enc_attr_list (acc : N) (l : list attr) : res (list N * N) :=
   match l with
   | [] => Ok ([], acc)
   | a :: t =>
       b <- enc_attr a ;;
-      acc' <- add16 p acc (trunc16 (len b)) ;;
-      r <- enc_attr_list p acc' t ;;
+      r <- enc_attr_list (acc + trunc16 (len b)) t ;;
       Ok (b ++ fst r, snd r)
   end.
 
-Fixpoint enc_attrs (p : profile) (two : bool) (acc : N) (l : list attr) : res (list N * N) :=
+Fixpoint enc_attrs (two : bool) (acc : N) (l : list attr) : res (list N * N) :=
   match l with
   | [] => Ok ([], acc)
   | a :: t =>
       w <- (if two then attrs_2byte a else Ok [a]) ;;
-      r1 <- enc_attr_list p acc w ;;
-      r2 <- enc_attrs p two (snd r1) t ;;
+      r1 <- enc_attr_list acc w ;;
+      r2 <- enc_attrs two (snd r1) t ;;
       Ok (fst r1 ++ fst r2, snd r2)
   end.
 
@@ -330,16 +342,16 @@ Fixpoint enc_attrs (p : profile) (two : bool) (acc : N) (l : list attr) : res (l
 Definition mp_nexthop (f : N) (nh : option (list N)) : list N :=
   let b := match nh with Some b => b | None => [] end in
   if is_flowspec f then [0]
+  else if is_vpn f && (len b =? 32) then 48 :: zeros 8 ++ firstn 16 b ++ zeros 8 ++ skipn 16 b
   else if is_vpn f then trunc8 (8 + trunc8 (len b)) :: zeros 8 ++ b
-  else if (len b <? 16) && negb (nh_as_is f) then 16 :: b ++ zeros (16 - length b)
+  else if (len b <? 16) && ((len b =? 0) || (afi f =? 2)) && negb (nh_as_is f) then 16 :: b ++ zeros (16 - length b)
   else trunc8 (len b) :: b.
 
 Definition mp_reach (p : profile) (c : codec) (cur : N) (f : N) (es : list pnlri) (nh : option (list N))
   : res (list N * N * nat) :=
   let head := be16 (afi f) ++ [safi f] ++ mp_nexthop f nh ++ [0] in
   let addpath := addpath_for c f in
-  let reserve := (if f =? F_EVPN then 60 else 17) + (if addpath then 4 else 0) in
-  r <- put_entries p (max_len c) reserve addpath (cur + 4 + len head) es ;;
+  r <- put_entries p (max_len c) addpath false (cur + 4 + len head) es ;;
   let mp_len := trunc16 (4 + len head + len (fst r)) in
   v <- sub16 p mp_len 4 ;;
   Ok ([144; 14] ++ be16 v ++ head ++ fst r, mp_len, snd r).
@@ -348,8 +360,7 @@ Definition mp_unreach (p : profile) (c : codec) (cur : N) (f : N) (es : list pnl
   : res (list N * N * nat) :=
   let head := be16 (afi f) ++ [safi f] in
   let addpath := addpath_for c f in
-  let reserve := 17 + (if addpath then 4 else 0) in
-  r <- put_entries p (max_len c) reserve addpath (cur + 4 + len head) es ;;
+  r <- put_entries p (max_len c) addpath true (cur + 4 + len head) es ;;
   let mp_len := trunc16 (4 + len head + len (fst r)) in
   v <- sub16 p mp_len 4 ;;
   Ok ([144; 15] ++ be16 v ++ head ++ fst r, mp_len, snd r).
@@ -358,39 +369,37 @@ Definition mp_unreach (p : profile) (c : codec) (cur : N) (f : N) (es : list pnl
 Definition lower (b : N) : N := if (65 <=? b) && (b <=? 90) then b + 32 else b.
 Definition fam3 (f : N) : list N := be16 (afi f) ++ [safi f].
 
-Definition enc_cap (p : profile) (c : cap) : res (list N) :=
+Definition enc_cap_bytes (c : cap) : list N :=
   match c with
-  | CMultiProtocol f => Ok ([1; 4] ++ be16 (afi f) ++ [0; safi f])
-  | CRouteRefresh => Ok [2; 0]
-  | CExtNexthop l =>
-      n <- mul8 p (trunc8 (len l)) 6 ;;
-      Ok ([5; n] ++ flat_map (fun x => be32 (fst x) ++ be16 (snd x)) l)
-  | CExtMessage => Ok [6; 0]
+  | CMultiProtocol f => [1; 4] ++ be16 (afi f) ++ [0; safi f]
+  | CRouteRefresh => [2; 0]
+  | CExtNexthop l => [5; trunc8 (len l * 6)] ++ flat_map (fun x => be32 (fst x) ++ be16 (snd x)) l
+  | CExtMessage => [6; 0]
   | CGR fl t l =>
-      n4 <- mul8 p (trunc8 (len l)) 4 ;;
-      n <- add8 p n4 2 ;;
-      Ok ([64; n] ++ be16 (N.lor (trunc16 (fl * 4096)) t) ++ flat_map (fun x => fam3 (fst x) ++ [snd x]) l)
-  | CFourOctet a => Ok ([65; 4] ++ be32 a)
-  | CAddPath l =>
-      n <- mul8 p (trunc8 (len l)) 4 ;;
-      Ok ([69; n] ++ flat_map (fun x => fam3 (fst x) ++ [snd x]) l)
-  | CEnhancedRR => Ok [70; 0]
+      [64; trunc8 (len l * 4 + 2)] ++ be16 (N.lor (trunc16 (fl * 4096)) t) ++ flat_map (fun x => fam3 (fst x) ++ [snd x]) l
+  | CFourOctet a => [65; 4] ++ be32 a
+  | CAddPath l => [69; trunc8 (len l * 4)] ++ flat_map (fun x => fam3 (fst x) ++ [snd x]) l
+  | CEnhancedRR => [70; 0]
   | CLLGR l =>
-      n <- mul8 p (trunc8 (len l)) 7 ;;
-      Ok ([71; n] ++ flat_map (fun x => fam3 (fst (fst x)) ++ [snd (fst x)] ++
-                                   [trunc8 (snd x / 65536); trunc8 (snd x / 256); trunc8 (snd x)]) l)
+      [71; trunc8 (len l * 7)] ++ flat_map (fun x => fam3 (fst (fst x)) ++ [snd (fst x)] ++
+                                   [trunc8 (snd x / 65536); trunc8 (snd x / 256); trunc8 (snd x)]) l
   | CFqdn h d =>
-      Ok ([73; trunc8 (2 + len h + len d); trunc8 (len h)] ++ map lower h ++ [trunc8 (len d)] ++ map lower d)
-  | CUnknown code b => Ok ([code; trunc8 (len b)] ++ b)
+      [73; trunc8 (2 + len h + len d); trunc8 (len h)] ++ map lower h ++ [trunc8 (len d)] ++ map lower d
+  | CUnknown code b => [code; trunc8 (len b)] ++ b
   end.
 
-Fixpoint enc_caps (p : profile) (acc : N) (l : list cap) : res (list N * N) :=
+(* the result is Err(()) when the value does not fit the one-octet capability length *)
+Definition enc_cap (c : cap) : res (list N) :=
+  let b := enc_cap_bytes c in
+  if 257 <? len b then Fail else Ok b.
+
+(* `cap_len += cap.encode(dst)?` with a usize accumulator *)
+Fixpoint enc_caps (acc : N) (l : list cap) : res (list N * N) :=
   match l with
   | [] => Ok ([], acc)
   | c :: t =>
-      b <- enc_cap p c ;;
-      acc' <- add8 p acc (trunc8 (len b)) ;;
-      r <- enc_caps p acc' t ;;
+      b <- enc_cap c ;;
+      r <- enc_caps (acc + len b) t ;;
       Ok (b ++ fst r, snd r)
   end.
 
@@ -436,33 +445,32 @@ Definition do_encode (p : profile) (c : codec) (m : msg) (es : list pnlri) : res
       match caps with
       | [] => Ok (frame_of (fixed ++ [0]), 0%nat)
       | _ =>
-          r <- enc_caps p 0 caps ;;
-          opt <- add8 p (snd r) 2 ;;
-          Ok (frame_of (fixed ++ [opt; 2; snd r] ++ fst r), 0%nat)
+          r <- enc_caps 0 caps ;;
+          if 255 <? snd r + 2 then Fail
+          else Ok (frame_of (fixed ++ [snd r + 2; 2; snd r] ++ fst r), 0%nat)
       end
   | MReach f nh attrs _ =>
-      r <- enc_attrs p (two_byte c) 0 attrs ;;
+      r <- enc_attrs (two_byte c) 0 attrs ;;
       if (f =? F_IPV4) && negb (ext_nh c) then
         r2 <- (match es, nh with
                | _ :: _, Some b =>
-                   if len b =? 4 then enc_attr_list p (snd r) [mk_bin 3 b] else Ok ([], snd r)
+                   if len b =? 4 then enc_attr_list (snd r) [mk_bin 3 b] else Ok ([], snd r)
                | _, _ => Ok ([], snd r)
                end) ;;
-        let pre := [2; 0; 0] ++ be16 (snd r2) ++ fst r ++ fst r2 in
+        let pre := [2; 0; 0] ++ be16 (trunc16 (snd r2)) ++ fst r ++ fst r2 in
         let addpath := addpath_for c f in
-        n <- put_entries p (max_len c) (5 + (if addpath then 4 else 0)) addpath (18 + len pre) es ;;
+        n <- put_entries p (max_len c) addpath false (18 + len pre) es ;;
         Ok (frame_of (pre ++ fst n), snd n)
       else
         let cur := 18 + 5 + len (fst r) in
         mp <- mp_reach p c cur f es nh ;;
         let '(mpb, mp_len, cnt) := mp in
-        al <- add16 p (snd r) mp_len ;;
-        Ok (frame_of ([2; 0; 0] ++ be16 al ++ fst r ++ mpb), cnt)
+        Ok (frame_of ([2; 0; 0] ++ be16 (trunc16 (snd r + mp_len)) ++ fst r ++ mpb), cnt)
   | MUnreach f _ =>
       if (f =? F_IPV4) && negb (ext_nh c) then
         let addpath := addpath_for c f in
-        n <- put_entries p (max_len c) (5 + (if addpath then 4 else 0)) addpath (18 + 3) es ;;
-        (* withdrawn_len: u16 += 4 (path id) and += the u16 returned by Nlri::encode *)
+        (* two bytes are kept for the empty path attribute length that follows *)
+        n <- put_entries p (max_len c - 2) addpath true (18 + 3) es ;;
         Ok (frame_of ([2] ++ be16 (trunc16 (len (fst n))) ++ fst n ++ [0; 0]), snd n)
       else
         mp <- mp_unreach p c (18 + 5) f es ;;
@@ -485,28 +493,30 @@ Definition do_encode (p : profile) (c : codec) (m : msg) (es : list pnlri) : res
 Definition entries_of (m : msg) : list pnlri :=
   match m with MReach _ _ _ es | MUnreach _ es => es | _ => [] end.
 
-(* the `while start < total` loop of encode_to; [fuel] bounds the iterations by the
-   number of entries left (every iteration but the last encodes at least one) *)
+(* the loop of encode_to: every wire message is encoded into a scratch buffer; the
+   call fails, writing nothing, when a message exceeds the negotiated maximum or when no
+   entry could be placed (`end <= start`).  [fuel] bounds the iterations by the number of
+   entries left (every iteration encodes at least one). *)
 Fixpoint enc_loop (fuel : nat) (p : profile) (c : codec) (m : msg) (es : list pnlri) : res (list (list N)) :=
   match fuel with
   | O => Ok []
   | S k =>
-      match es with
-      | [] => Ok []
-      | _ =>
-          r <- do_encode p c m es ;;
-          match snd r with
-          | O => Ok [fst r]                       (* `end <= start`: break *)
-          | n => rest <- enc_loop k p c m (skipn n es) ;; Ok (fst r :: rest)
-          end
-      end
+      r <- do_encode p c m es ;;
+      if max_len c <? len (fst r) then Fail
+      else
+        let rest := skipn (snd r) es in
+        match rest with
+        | [] => Ok [fst r]                        (* `end >= total`: done *)
+        | _ =>
+            match snd r with
+            | O => Fail                           (* `end <= start`: no progress *)
+            | _ => tl <- enc_loop k p c m rest ;; Ok (fst r :: tl)
+            end
+        end
   end.
 
 Definition encode_to (p : profile) (c : codec) (m : msg) : res (list (list N)) :=
-  match entries_of m with
-  | [] => r <- do_encode p c m [] ;; Ok [fst r]
-  | es => enc_loop (length es) p c m es
-  end.
+  enc_loop (S (length (entries_of m))) p c m (entries_of m).
 
 (* ---- observation *)
 (* Fletcher-style digest of a long buffer: (sum of (b+1), sum of the running sums) *)
